@@ -42,18 +42,19 @@ def run(ctx):
         open(cases, "w").write(ctx.replay["case_record"]["line"] + "\n")
     else:
         # liveness (Termination) + determinism of the machine on a small bound, all three dialects
-        ctx.tlc("lex", "Scanner", "Scanner_live.cfg", cases_path=cases, timeout_s=600, workers=workers)
+        ctx.tlc("lex", "Scanner", "Scanner_live.cfg", cases_path=cases, timeout_s=3600, workers=workers)
         for a in ALPHABETS:
-            ctx.tlc("lex", "Scanner", "Scanner_quick_%s.cfg" % a, cases_path=cases, timeout_s=900, workers=workers)
+            ctx.tlc("lex", "Scanner", "Scanner_quick_%s.cfg" % a, cases_path=cases, timeout_s=3600, workers=workers)
         if ctx.tier == "thorough":
             for a in ALPHABETS:
-                ctx.tlc("lex", "Scanner", "Scanner_thorough_%s.cfg" % a, cases_path=cases, timeout_s=1500,
+                ctx.tlc("lex", "Scanner", "Scanner_thorough_%s.cfg" % a, cases_path=cases, timeout_s=14400,
                         workers=workers)
-            n = int(os.environ.get("VERIF_LEX_SIM") or 60000)
-            ctx.tlc("lex", "Scanner", "Scanner_sim.cfg", cases_path=cases, timeout_s=900, workers=workers,
+            # TLC runs `num` traces per worker; a trace = one random string of 16..40 symbols, scanned to EOF
+            n = int(os.environ.get("VERIF_LEX_SIM") or 1500)
+            ctx.tlc("lex", "Scanner", "Scanner_sim.cfg", cases_path=cases, timeout_s=14400, workers=workers,
                     simulate="num=%d" % n, depth=400, seed=ctx.seed)
     h = ctx.build_harness("lexh")
-    res = ctx.run_harness(h, ["c15"], cases, timeout_s=1800)
+    res = ctx.run_harness(h, ["c15"], cases, timeout_s=3600)
     ctx.tally(res, cases_path=cases)
     if not ctx.replay:
         fold(ctx, res)
@@ -61,7 +62,7 @@ def run(ctx):
     ctx.rule = ("every byte string up to the per-alphabet length bound (quick 3-5, thorough 4-6) over 8 alphabets "
                 "(numeric x2, quoted, comment/whitespace, operator x2, character-class soup incl. NUL/BOM/invalid "
                 "UTF-8/non-ASCII letter and digit, semicolon rules), each replayed in both comment modes; thorough adds "
-                "seeded TLC simulation of strings <= 40 over the union alphabet; distinct/non-trivial = distinct "
+                "seeded TLC simulation of strings of 16..40 symbols over the union alphabet; distinct/non-trivial = distinct "
                 "sequence of token kinds in the model's stream")
     ctx.assumptions += ["bytes >= 0x80 are represented by one letter, one digit, BOM and one invalid byte",
                         "exhaustive only up to the stated lengths; longer inputs are sampled (simulation)"]
